@@ -31,7 +31,8 @@ CONSTANTS
   IpOf <- %(ipof)s
   Clusters = {%(clusters)s}
   Override <- MC_Override
-  OverrideC2 = 1
+  OverrideC2 = %(ovrc2)d
+  OvrValues = {%(ovrvals)s}
   Limits = {%(limits)s}
   EvictOn = %(evict)s
   QT = %(qt)d
@@ -65,7 +66,7 @@ def strs(xs):
 
 def write_cfg(wd, name, **kw):
     d = dict(spec="Spec", max=3, socks=rng(5), toks=rng(4), ips=strs(["i1"]), ipof="MC_IpOf1", clusters=strs(["c1"]),
-             limits="0", evict="TRUE", qt=1, sys=4, maxback=1, pool=7, tls="TRUE, FALSE", mayfail="TRUE", dev="",
+             limits="0", ovrc2=1, ovrvals="", evict="TRUE", qt=1, sys=4, maxback=1, pool=7, tls="TRUE, FALSE", mayfail="TRUE", dev="",
              script="NoScript", gen="off", depth=0, checks=SAFETY, view="VIEW View")
     d.update(kw)
     path = os.path.join(wd, name)
@@ -79,7 +80,7 @@ PERIP = dict(ips=strs(["i1", "i2"]), ipof="MC_IpOf", clusters=strs(["c1", "c2"])
 REQUIRED_ACTIONS_A = ["Env_Connect", "Tick", "AcceptPush", "Pop", "CheckLimitsWith", "EvictClose", "Create", "CreateFail",
                       "Incr", "HandshakeOk", "Link", "Unlink", "Upgrade", "Serve", "TrackIp", "Close"]
 REQUIRED_ACTIONS_B = ["AcceptPush", "Pop", "CheckLimitsWith", "Create", "Incr", "Link", "TrackIp", "RejectIp",
-                      "SetPerIpLimit", "Close"]
+                      "SetPerIpLimit", "SetClusterLimit", "Close"]
 
 
 def hysteresis_script(mx, seed):
@@ -126,19 +127,32 @@ def run_tlc_legs(wd, tier, devs, out):
         # --- per-IP instance
         kw = dict(PERIP)
         if thorough:
-            kw.update(max=3, socks=rng(3), toks=rng(3), limits="0, 1, 2")
+            kw.update(max=3, socks=rng(3), toks=rng(3), limits="0, 1, 2", ovrvals="0, 1")
         else:
-            kw.update(max=2, socks=rng(3), toks=rng(2), limits="0, 1")
+            kw.update(max=2, socks=rng(3), toks=rng(2), limits="0, 1", ovrvals="0, 1")
         r = vlib.tlc("MC_Sessions", write_cfg(wd, "mc_perip.cfg", dev=strs(devs), **kw), PID, workers=workers,
                      timeout=1500, coverage=thorough)
         res.append(("perip", r))
         if thorough and not r["violated"]:
             vlib.require_actions_covered(r, REQUIRED_ACTIONS_B)
+        # self-tests of the per-IP part (the deviations model defect classes that seeded changes showed):
+        #   LazyTrack      no slot recorded while the resolved limit is 0 -> a limit switched on at run time is exceeded
+        #   SlotLeakOnFail a session that dies after the gate, without a backend, keeps its slots -> not back to baseline
+        kw = dict(PERIP)
+        kw.update(max=2, socks=rng(3), toks=rng(2), limits="0, 1", ovrvals="0, 1")
+        st = []
+        for dev, checks, want in (("LazyTrack", "INVARIANTS P_C16_PerIpServed", "P_C16_PerIpServed"),
+                                  ("LazyTrack", "INVARIANTS P_C16_SlotRecorded", "P_C16_SlotRecorded"),
+                                  ("SlotLeakOnFail", "INVARIANTS P_C16_TracksOnlyLive P_C16_Baseline", "P_C16_")):
+            r = vlib.tlc("MC_Sessions", write_cfg(wd, "mc_dev_%s_%s.cfg" % (dev, want.strip("_")), dev=strs([dev]), checks=checks, **kw), PID,
+                         workers=2, timeout=600)
+            st.append((dev, want, r))
+        out["selftest_perip"] = st
         if thorough:
             # the combined instance (2 addresses x 2 clusters x eviction x TLS, 5 sockets) is too large to
             # exhaust: random walks with every invariant and action property checked, time-boxed
             kw = dict(PERIP)
-            kw.update(max=3, socks=rng(5), toks=rng(4), limits="0, 1, 2", evict="TRUE", qt=1, maxback=2, tls="TRUE, FALSE")
+            kw.update(max=3, socks=rng(5), toks=rng(4), limits="0, 1, 2", ovrvals="0, 1, 2", evict="TRUE", qt=1, maxback=2, tls="TRUE, FALSE")
             r = vlib.tlc("MC_Sessions", write_cfg(wd, "mc_full_sim.cfg", dev=strs(devs), view="", **kw), PID, workers=8,
                          simulate="num=200000", depth=150, timeout=420)
             res.append(("full_random_walks", r))
@@ -205,7 +219,7 @@ def generate(wd, tier, devs, bins, out):
                 tlc_res.append(g)
             # (b) random behaviours of the full instance
             kw = dict(PERIP)
-            kw.update(max=3, socks=rng(5), toks=rng(4), limits="0, 1, 2", evict="TRUE", qt=1, maxback=2, tls="TRUE, FALSE")
+            kw.update(max=3, socks=rng(5), toks=rng(4), limits="0, 1, 2", ovrvals="0, 1, 2", evict="TRUE", qt=1, maxback=2, tls="TRUE, FALSE")
             g = vlib.tlc("MC_Sessions", write_cfg(wd, "gen_hist.cfg", gen="hist", depth=40, checks="INVARIANTS EmitHist", view="",
                                                    dev=strs(devs), **kw), PID, workers=4,
                          simulate="num=%d" % (600 if thorough else 150), depth=50, timeout=600, want_replay=True,
@@ -237,6 +251,9 @@ DRIVE_PLAN_QUICK = [
     dict(name="mix8", args=["--max", "8", "--waves", "8"]),
     dict(name="max1", args=["--max", "1", "--waves", "2", "--kinds", "storm,h1", "--zombie", "1"]),
     dict(name="max20", args=["--max", "20", "--waves", "2", "--kinds", "storm,perip", "--zombie", "1"]),
+    # the per-(cluster, ip) gate: connections served while the resolved limit is 0, the limit switched on at run time
+    # (globally / per cluster), sessions that die after the gate without a backend, then the ordinary per-IP wave
+    dict(name="gate8", args=["--max", "8", "--waves", "5", "--kinds", "enable,leak,perip,enable,leak"]),
 ]
 
 
@@ -247,7 +264,8 @@ def drive(wd, tier, bins, out):
         plan = list(DRIVE_PLAN_QUICK)
         if tier == "thorough":
             plan = [dict(name="mix8_%d" % k, args=["--max", "8", "--waves", "14"], seed=k) for k in range(4)] + plan[1:] + [
-                dict(name="mix3", args=["--max", "3", "--waves", "8"], seed=7)]
+                dict(name="mix3", args=["--max", "3", "--waves", "8"], seed=7),
+                dict(name="gate20", args=["--max", "20", "--waves", "10", "--kinds", "enable,leak,enable,perip,leak"], seed=9)]
         runs = []
         for k, p in enumerate(plan):
             trace = os.path.join(wd, "trace_%s.ndjson" % p["name"])
@@ -363,6 +381,10 @@ def run(tier, replay=None):
     rep.add_tlc(st)
     if not st["violated"] or ("Temporal" not in st["violated"] and "P_C16_Resumes" not in st["violated"]):
         raise vlib.ToolError("liveness self-test: deviation NoHystFloor (Max = 1) no longer violates P_C16_Resumes (%s)" % st["violated"])
+    for dev, want, r in out["selftest_perip"]:
+        rep.add_tlc(r)
+        if not r["violated"] or want not in r["violated"]:
+            raise vlib.ToolError("per-IP self-test: deviation %s no longer violates %s (%s)" % (dev, want, r["violated"]))
 
     # ---- 2. S->I
     beh, counts, gens, o = out["gen"]
